@@ -278,6 +278,9 @@ func DecodeDataMatrix(m [][]bool) (*DMResult, error) {
 			res.Pads = len(data) - i
 			for j := i + 1; j < len(data); j++ {
 				r := (149*(j+1))%253 + 1
+				if data[j] == 0 || data[j] == 255 {
+					return nil, fmt.Errorf("pad codeword at position %d is %d, outside 1..254", j+1, data[j])
+				}
 				un := int(data[j]) - r
 				if un < 1 {
 					un += 254
